@@ -188,7 +188,10 @@ func main() {
 				tm := time.Unix(sec.Int64(), ns.Int64()).UTC()
 				fn := []string{"subscription.IDFromPayoutForAccountByNodeKey", "subscription.IDFromSubscriptionForAccountKey", "subscription.AccAddrFromSubscriptionForAccountKey",
 					"subscription.IDFromPayoutForNextAtKey", "session.IDFromSessionForAllocationKey", "session.IDFromSessionForAccountKey", "node.AddressFromNodeForPlanKey",
-					"node.AddressFromNodeForInactiveAtKey", "plan.IDFromPlanForProviderKey", "subscription.IDFromSubscriptionForInactiveAtKey"}[r.Intn(10)]
+					"node.AddressFromNodeForInactiveAtKey", "plan.IDFromPlanForProviderKey", "subscription.IDFromSubscriptionForInactiveAtKey",
+					"session.IDFromSessionForNodeKey", "session.IDFromSessionForSubscriptionKey", "session.IDFromSessionForInactiveAtKey",
+					"subscription.IDFromSubscriptionForNodeKey", "subscription.IDFromSubscriptionForPlanKey", "subscription.IDFromPayoutForAccountKey",
+					"subscription.IDFromPayoutForNodeKey"}[r.Intn(17)]
 				emit(fmt.Sprintf("dec f=%s t=%s a=%s b=%s i=%d j=%d", fn, t.String(), hx(a), hx(b), i, j), try(func() string {
 					switch fn {
 					case "subscription.IDFromPayoutForAccountByNodeKey":
@@ -211,6 +214,20 @@ func main() {
 						return fmt.Sprintf("ok %d", plantypes.IDFromPlanForProviderKey(plantypes.PlanForProviderKey(a, i)))
 					case "subscription.IDFromSubscriptionForInactiveAtKey":
 						return fmt.Sprintf("ok %d", subscriptiontypes.IDFromSubscriptionForInactiveAtKey(subscriptiontypes.SubscriptionForInactiveAtKey(tm, i)))
+					case "session.IDFromSessionForNodeKey":
+						return fmt.Sprintf("ok %d", sessiontypes.IDFromSessionForNodeKey(sessiontypes.SessionForNodeKey(a, i)))
+					case "session.IDFromSessionForSubscriptionKey":
+						return fmt.Sprintf("ok %d", sessiontypes.IDFromSessionForSubscriptionKey(sessiontypes.SessionForSubscriptionKey(j, i)))
+					case "session.IDFromSessionForInactiveAtKey":
+						return fmt.Sprintf("ok %d", sessiontypes.IDFromSessionForInactiveAtKey(sessiontypes.SessionForInactiveAtKey(tm, i)))
+					case "subscription.IDFromSubscriptionForNodeKey":
+						return fmt.Sprintf("ok %d", subscriptiontypes.IDFromSubscriptionForNodeKey(subscriptiontypes.SubscriptionForNodeKey(a, i)))
+					case "subscription.IDFromSubscriptionForPlanKey":
+						return fmt.Sprintf("ok %d", subscriptiontypes.IDFromSubscriptionForPlanKey(subscriptiontypes.SubscriptionForPlanKey(j, i)))
+					case "subscription.IDFromPayoutForAccountKey":
+						return fmt.Sprintf("ok %d", subscriptiontypes.IDFromPayoutForAccountKey(subscriptiontypes.PayoutForAccountKey(a, i)))
+					case "subscription.IDFromPayoutForNodeKey":
+						return fmt.Sprintf("ok %d", subscriptiontypes.IDFromPayoutForNodeKey(subscriptiontypes.PayoutForNodeKey(a, i)))
 					}
 					return "bad"
 				}))
